@@ -107,4 +107,10 @@ MUTANTS = [
       "            elif block.tag == TRACEV3_IMAGES:\n                self.images = plistlib.loads(block.data)",
       "            elif TRACEV3_IMAGES == block.tag:\n                images = plistlib.loads(block.data)\n                self.images = images"),
     N("C03", "trace codes accumulated with explicit +", K, "                self.trace_codes += block.data.decode()", "                self.trace_codes += block.data.decode('utf-8')"),
+    N("C03", "seek_until with the match tested after each step, driven by iter(callable, sentinel)", "kd_buf_parser.py",
+      "    found = reader.read(len(data))\n    while found != data:\n        byte = reader.read(1)\n        if not byte:\n            raise EOFError(f'{data!r} was not found before the end of the stream')\n        found = found[1:] + byte\n",
+      "    from functools import partial\n    window = reader.read(len(data))\n    if window == data:\n        return\n    for byte in iter(partial(reader.read, 1), b''):\n        window = window[1:] + byte\n        if window == data:\n            return\n    raise EOFError(f'{data!r} was not found before the end of the stream')\n"),
+    F("C03", "rotated seek_until that forgets to test the first window", "kd_buf_parser.py",
+      "    found = reader.read(len(data))\n    while found != data:\n        byte = reader.read(1)\n        if not byte:\n            raise EOFError(f'{data!r} was not found before the end of the stream')\n        found = found[1:] + byte\n",
+      "    from functools import partial\n    window = reader.read(len(data))\n    for byte in iter(partial(reader.read, 1), b''):\n        window = window[1:] + byte\n        if window == data:\n            return\n    raise EOFError(f'{data!r} was not found before the end of the stream')\n", None),
 ]
